@@ -10,7 +10,12 @@ from pyvc.values import LATTICE
 
 
 def run_lemmas(lemmas, tier, seed):
+    from pyvc.run import Repo, prepare_lattice, load_contracts, models_factory
+    from pyvc.interp import Interp
     out = []
+    repo = Repo()
+    prepare_lattice(repo)
+    reg = load_contracts()
     axioms = LATTICE.axioms()
     for l in lemmas:
         t0 = time.time()
@@ -18,10 +23,14 @@ def run_lemmas(lemmas, tier, seed):
                  assumptions=[], lines=None, props=list(l.props))
         try:
             st = State([], axioms)
-            for n, f in l.obligations(st):
+            models = models_factory()
+            it = Interp(repo, reg, st, models)
+            models.attach(it)
+            for n, f in l.obligations(it):
                 ob = Obligation(f'lemma:{l.name}#{n}', st.pc, f, 0)
                 v = discharge(ob, axioms, timeout_s=20 if tier == 'quick' else 120, seed=seed, both=(tier == 'thorough'))
                 r['verdicts'].append(v.as_dict())
+            r['assumptions'] = sorted(st.assumptions_used)
         except Exception:
             r['error'] = traceback.format_exc()
         r['wall_s'] = time.time() - t0
